@@ -267,13 +267,20 @@ Print Assumptions C06_split_leftover_bounds.
    zero, amount a valid coin -- then the keeper call the msg server makes) is
    exactly the keeper's PlaceBid: what ValidateBasic refuses the keeper refuses
    too, so every theorem above about [place_bid] / [step] is a theorem about
-   MsgPlaceBid.  (No stored auction has id 0: NextAuctionID starts at 1.) *)
+   MsgPlaceBid sent by a non-empty address.  (No stored auction has id 0: NextAuctionID starts at 1.) *)
 Theorem C06_msg_place_bid_is_keeper_place_bid :
   forall e s t id bidder d x parts,
-  Inv e s -> afind 0 (aucs s) = None ->
+  Inv e s -> afind 0 (aucs s) = None -> bidder <> nobody e ->
   msg_place_bid e s t id bidder d x parts = place_bid e s t id bidder d x parts.
 Proof. exact msg_place_bid_is_place_bid. Qed.
 Print Assumptions C06_msg_place_bid_is_keeper_place_bid.
+
+(* the one thing ValidateBasic refuses that the keeper call alone would not: an
+   empty bidder address (no transaction can be signed by it) *)
+Theorem C06_msg_place_bid_empty_bidder_refused :
+  forall e s t id d x parts, msg_place_bid e s t id (nobody e) d x parts = Err.
+Proof. exact msg_place_bid_empty_bidder_refused. Qed.
+Print Assumptions C06_msg_place_bid_empty_bidder_refused.
 
 (** * non-vacuity *)
 
